@@ -486,6 +486,9 @@ func Try(f func(t TB)) (failed bool, msg string) {
 // recorded defect that is still present, "pass" for a fixed defect or a plain
 // regression case).
 func Regress(t *testing.T) {
+	if shard != 0 {
+		t.Skip("regress witnesses are replayed by shard 0")
+	}
 	dir := filepath.Join(VerifDir(), "regress", property)
 	files, _ := filepath.Glob(filepath.Join(dir, "*.json"))
 	sort.Strings(files)
